@@ -1,5 +1,7 @@
 package spec
 
+import "fmt"
+
 // Regional Parameters (RP002-1.0.3) values used by the C12/C13 oracles. Only
 // cells that are certain are listed; a cell that is not listed is not judged
 // against a constant (it is still subject to the structural relations).
@@ -194,4 +196,113 @@ func (r Region) RX1DataRate(dr, off int, downlinkDwell400 bool) (int, bool) {
 		}
 	}
 	return 0, false
+}
+
+// LinkADR is the channel-mask part of one LinkADRReq.
+type LinkADR struct {
+	ChMaskCntl int
+	Mask       uint16
+}
+
+// ApplyLinkADR is the device-side model of LinkADRReq channel-mask handling
+// (LoRaWAN 1.0.x/1.1 section 5.2 with the regional ChMaskCntl tables of
+// RP002): plan is the region's plan kind ("dynamic": up to 16 channels,
+// ChMaskCntl 0 = channels 0..15, 6 = all defined channels on; "fixed72":
+// US915/AU915; "fixed96": CN470), device the currently enabled channels, known
+// whether the device has a channel definition for an index. The commands are
+// applied in order. An error text is returned when a command would be
+// rejected by a conformant device (it enables a channel the device does not
+// know, or uses an RFU ChMaskCntl).
+func ApplyLinkADR(plan string, device []int, known func(int) bool, cmds []LinkADR) ([]int, string) {
+	size := map[string]int{"dynamic": 16, "fixed72": 72, "fixed96": 96}[plan]
+	en := make([]bool, size)
+	for _, c := range device {
+		if c >= 0 && c < size {
+			en[c] = true
+		}
+	}
+	set := func(i int, v bool) string {
+		if i >= size || !known(i) {
+			if v {
+				return "enables channel that is not defined on the device"
+			}
+			return ""
+		}
+		en[i] = v
+		return ""
+	}
+	for _, cmd := range cmds {
+		bit := func(i int) bool { return cmd.Mask&(1<<uint(i)) != 0 }
+		var err string
+		block := func(base, n int) {
+			for i := 0; i < 16; i++ {
+				if i >= n {
+					if bit(i) {
+						err = "sets an RFU mask bit"
+					}
+					continue
+				}
+				if e := set(base+i, bit(i)); e != "" {
+					err = e
+				}
+			}
+		}
+		switch plan {
+		case "dynamic":
+			switch cmd.ChMaskCntl {
+			case 0:
+				block(0, 16)
+			case 6:
+				for i := 0; i < size; i++ {
+					if known(i) {
+						en[i] = true
+					}
+				}
+			default:
+				err = "RFU ChMaskCntl"
+			}
+		case "fixed72":
+			switch {
+			case cmd.ChMaskCntl >= 0 && cmd.ChMaskCntl <= 3:
+				block(16*cmd.ChMaskCntl, 16)
+			case cmd.ChMaskCntl == 4:
+				block(64, 8)
+			case cmd.ChMaskCntl == 5:
+				for bank := 0; bank < 8; bank++ {
+					for k := 0; k < 8; k++ {
+						en[bank*8+k] = bit(bank)
+					}
+					en[64+bank] = bit(bank)
+				}
+			case cmd.ChMaskCntl == 6 || cmd.ChMaskCntl == 7:
+				for i := 0; i < 64; i++ {
+					en[i] = cmd.ChMaskCntl == 6
+				}
+				block(64, 8)
+			default:
+				err = "RFU ChMaskCntl"
+			}
+		case "fixed96":
+			switch {
+			case cmd.ChMaskCntl >= 0 && cmd.ChMaskCntl <= 5:
+				block(16*cmd.ChMaskCntl, 16)
+			case cmd.ChMaskCntl == 6:
+				for i := range en {
+					en[i] = true
+				}
+			default:
+				err = "RFU ChMaskCntl"
+			}
+		}
+		if err != "" {
+			return nil, fmt.Sprintf("LinkADRReq{ChMaskCntl:%d ChMask:%04x} %s", cmd.ChMaskCntl, cmd.Mask, err)
+		}
+	}
+	var out []int
+	for i, v := range en {
+		if v {
+			out = append(out, i)
+		}
+	}
+	return out, ""
 }
